@@ -164,7 +164,7 @@ func selectLexCorpus(sel map[string][]lexSel, order []string, leads []lexLead, t
 	nReg, nOther := 0, 0
 	for _, l := range leads {
 		// separate budgets so that the known regular-definition defect cannot crowd out other leads
-		if l.G.HasRegDefs() {
+		if l.G.HasRegDefs() && l.G.SharingSensitive() {
 			if nReg++; nReg > maxLeads {
 				continue
 			}
